@@ -11,6 +11,9 @@
 // (array::*, tuple::*, algorithm::map/loop/fold on arrays, tuples and mpl lists); C16_hetero.cpp runs every function
 // that takes a value / key / index / delimiter / state next to a range with a value of another type (C16_hetero.hpp
 // holds the calls, C16_probe_hetero.cpp compiles each family on its own as a compile probe).
+// C16_callbacks.cpp: callbacks that throw at their k-th call, look at or re-enter the container they are inserted
+// into.  Ranges of every iterator category (single-pass, forward, bidirectional, random access, all without size())
+// run through the map/fold/loop/predicate/find checks of C16_algorithm*.cpp.
 #include "C16_common.hpp"
 
 int main(int argc, char **argv)
@@ -20,5 +23,6 @@ int main(int argc, char **argv)
   c16::register_container_shards();
   c16::register_array_tuple_shards();
   c16::register_hetero_shards();
+  c16::register_callback_shards();
   return vrt::run(argc, argv);
 }
